@@ -99,6 +99,7 @@ func boundarySizes(p, conc int) []int {
 func runC01(c *Ctx) {
 	c.Rule("grid: maxPacket p in {1,2,3,7,8}, maxConcurrent in {1,2,3}, UseConcurrentReads/Writes/Fstat, file/buffer lengths and offsets in {0,1} + {k*p-1,k*p,k*p+1 | k in 1,2,conc,conc+1,2conc+1}, " +
 		"all seven transfer APIs, five ReadFrom source kinds, backends {scripted peer, scripted peer permuting replies, Server, Server+allocator, RequestServer, RequestServer+allocator}; " +
+		"plus (a fifth of the budget again) the request server over a backend whose ReadAt/WriteAt fails at seeded request offsets, a failing ReadAt returning its partial bytes with the error: obs against the model with those chunks failing, oracle of C13; " +
 		"thorough adds the default 32 KiB packet with files beyond packet x 64; non-trivial = transfer of at least two chunks")
 	apis := []string{"readat", "read", "writeto", "writeat", "write", "readfrom", "readfromc"}
 	srcs := []string{"len", "size", "limited", "stat", "opaque"}
@@ -117,6 +118,9 @@ func runC01(c *Ctx) {
 			c.NT(n)
 		}
 		ok, why := oracleExact(x, r)
+		if len(x.rfail)+len(x.wfail) > 0 {
+			ok, why = oraclePartial(x, r)
+		}
 		c.Oracle(n, ok, why)
 		count++
 	}
@@ -133,7 +137,7 @@ func runC01(c *Ctx) {
 		sizes := boundarySizes(cf.p, cf.conc)
 		x := &xcase{api: apis[c.Rng.Intn(len(apis))], p: cf.p, conc: cf.conc, cr: c.Rng.Intn(3) != 0, cw: c.Rng.Intn(2) == 0, fst: c.Rng.Intn(2) == 0,
 			flen: sizes[c.Rng.Intn(len(sizes))], n: sizes[c.Rng.Intn(len(sizes))], maxtx: 32768, src: srcs[c.Rng.Intn(len(srcs))],
-			backend: backends[c.Rng.Intn(len(backends))], regular: true}
+			backend: backends[c.Rng.Intn(len(backends))], regular: true, ro: c.Rng.Intn(2) == 0}
 		offs := append(sizes, x.flen, x.flen+1)
 		x.off = offs[c.Rng.Intn(len(offs))]
 		if c.Rng.Intn(3) == 0 {
@@ -149,6 +153,35 @@ func runC01(c *Ctx) {
 		} else if c.Rng.Intn(4) == 0 {
 			x.maxtx = 65536
 		}
+		one(x)
+	}
+	// "a nil error means the whole request was transferred": the request server over a backend whose ReadAt / WriteAt fails
+	// at chosen request offsets - a failing ReadAt returns the bytes it did get together with its error, as io.ReaderAt
+	// allows. The model sees the plan as failing chunks (the server must answer such a chunk with the error's status).
+	faulty := budget / 5
+	for i := 0; i < faulty; i++ {
+		p := 2 + c.Rng.Intn(7)
+		conc := 1 + c.Rng.Intn(3)
+		x := &xcase{api: apis[c.Rng.Intn(len(apis))], p: p, conc: conc, cr: c.Rng.Intn(3) != 0, cw: c.Rng.Intn(2) == 0, fst: c.Rng.Intn(2) == 0,
+			maxtx: 32768, src: srcs[c.Rng.Intn(len(srcs))], backend: []string{"req", "reqalloc"}[c.Rng.Intn(2)], regular: true, ro: c.Rng.Intn(2) == 0}
+		x.flen = c.Rng.Intn(6*p + 2)
+		x.n = c.Rng.Intn(6*p + 2)
+		x.off = []int{0, 0, 1, p, p + 1, 2 * p}[c.Rng.Intn(6)]
+		plan := map[uint64]uint32{}
+		for j, nf := 0, 1+c.Rng.Intn(2); j < nf; j++ {
+			plan[uint64(x.off+c.Rng.Intn(6)*p)] = []uint32{4, 2, 3}[c.Rng.Intn(3)]
+		}
+		if isWriteAPI(x.api) {
+			x.wfail = plan
+		} else {
+			for o := range plan {
+				if int(o) >= x.flen {
+					delete(plan, o)
+				}
+			}
+			x.rfail = plan
+		}
+		c.Stat("faulty_backend_cases")
 		one(x)
 	}
 	if c.Thorough() {
